@@ -14,8 +14,8 @@ ANCHORS = ["cyecca/lie/group_so3.py", "cyecca/lie/group_se2.py", "cyecca/lie/gro
 MISSING = [
     "Taylor cells (0 < theta^2 < 1e-3): explicit truncation bound as a theorem (C06) — numeric search only",
     "SO3Euler target (exp goes through Euler from_Matrix) — numeric search only",
-    "composition law exp((s+t)x) = exp(sx)exp(tx) and exp(-x)exp(x) = 1 ARE Lean corollaries (Props/C02C) for SO3Dcm, SO3Quat, SE2, SE3Quat on the closed-form cells; "
-    "MRP / SE_2(3) targets of these two clauses — numeric search only",
+    "composition law exp((s+t)x) = exp(sx)exp(tx) and exp(-x)exp(x) = 1 ARE Lean corollaries (Props/C02C) for SO3Dcm, SO3Quat, SO3Mrp, SE2, SE3Quat, SE3Mrp on the closed-form cells; "
+    "SE_2(3) / Euler targets of these two clauses — numeric search only",
 ]
 
 
